@@ -67,7 +67,10 @@ theorem startLoop_genValid (c : Crypto G) (env : Env) (ms : List (VMsg G)) :
     unfold startLoop
     have hu := update_genValid c env st m h
     simp only []
-    split; · exact hu
+    split
+    · split
+      · exact ih _ hu
+      · exact hu
     split; · exact hu
     exact ih _ hu
 
